@@ -1,7 +1,7 @@
 (* Proofs about C04's permit-holding overlay (Model/CopyHold.v): it only strengthens the guard of the
    transition system, permits held never exceed K, and the operations in flight are bounded by the
    permits held. *)
-From Oras Require Import Base.Prelude Model.CopySpec Model.CopyTop Model.CopyOpt Model.CopyHold
+From Oras Require Import Base.Prelude Model.CopySpec Model.CopyTop Model.CopyOpt Model.CopyCancel Model.CopyHold
   Proofs.CopySpec Proofs.CopyAcct Proofs.CopyOpt.
 Local Open Scope nat_scope.
 
@@ -80,6 +80,38 @@ Proof.
     destruct (run_opt_h cs g c s1 tr) as [[s2 f2]|] eqn:E2; [|discriminate].
     injection H as <- <-. eapply run_h_cat; [eapply step_opt_h_sound; eauto | eapply IH; eauto].
 Qed.
+
+(* the cancellation layer (Model/CopyCancel.v) over the overlay: same answer as over CopySpec *)
+Lemma step_opt_h_ret_false cs g c st :
+  step_opt_h cs g c st (Ret false) = step_opt cs g c st (Ret false).
+Proof.
+  unfold step_opt_h, step_opt. simpl. destruct (nil_cb_event cs (Ret false)); [reflexivity|].
+  unfold step_h. simpl.
+  destruct (step g c st (Ret false)) as [s2|]; reflexivity.
+Qed.
+
+Lemma cstep_opt_h_cstep_opt cs g c s ce r :
+  cstep_opt_h cs g c s ce = Some r -> cstep_opt cs g c s ce = Some r.
+Proof.
+  unfold cstep_opt_h, cstep_opt. destruct ce as [e|]; [|auto].
+  destruct (step_opt_h cs g c (cs_st s) e) as [[st' full]|] eqn:E.
+  - rewrite (step_opt_h_step_opt _ _ _ _ _ _ E). auto.
+  - destruct e; try discriminate. destruct ok; try discriminate.
+    rewrite step_opt_h_ret_false in E. rewrite E. auto.
+Qed.
+
+Lemma crun_opt_h_crun_opt cs g c tr : forall s r, crun_opt_h cs g c s tr = Some r -> crun_opt cs g c s tr = Some r.
+Proof.
+  induction tr as [|ce tr IH]; simpl; intros s r H; [exact H|].
+  destruct (cstep_opt_h cs g c s ce) as [[s1 f1]|] eqn:E; [|discriminate].
+  rewrite (cstep_opt_h_cstep_opt _ _ _ _ _ _ E).
+  destruct (crun_opt_h cs g c s1 tr) as [[s2 f2]|] eqn:E2; [|discriminate].
+  rewrite (IH _ _ E2). exact H.
+Qed.
+
+Lemma caccepts_opt_h_caccepts_opt cs g c d0 tr r :
+  caccepts_opt_h cs g c d0 tr = Some r -> caccepts_opt cs g c d0 tr = Some r.
+Proof. apply crun_opt_h_crun_opt. Qed.
 
 (* ------------------------------------------------------------------ counting with a per-node predicate *)
 
